@@ -315,7 +315,8 @@ func (w *World) buildServers() {
 			if p == nil {
 				return "", protocol.PublicKey{}, fmt.Errorf("no manufacturer key of type %s", info.KeyType)
 			}
-			return info.DeviceInfo, p.PublicKey(info.KeyEncoding), nil
+			pk, err := p.PublicKeyErr(info.KeyEncoding)
+			return info.DeviceInfo, pk, err
 		},
 		RvInfo: func(context.Context, *fdo.Voucher) ([][]protocol.RvInstruction, error) { return opt.RvInfo, nil },
 	}
